@@ -1,7 +1,18 @@
+/-
+  C07 on the reactor model, for every accepted round (every sequence of
+  environment decisions the real loop can exhibit and the acceptor recognises).
+-/
 import Gnet.Spec.ReactorSpec
+import Gnet.Proofs.ReactorLife
 namespace Gnet.Props.C07
 open Gnet.Reactor
 
-theorem init_names (cfg : Cfg) : NamesNodup { cfg := cfg } := by simp [NamesNodup]
+/-- descriptor discipline: in every accepted round every system call made for a connection
+    names a descriptor that the ledger still holds open; in particular none after the
+    connection's close and no second close -/
+theorem fd_discipline (s s' : RState) (toks : List Tok) (hn : NamesNodup s)
+    (h : acceptRound s toks = .ok s') (hl : InvLife s) (hf : InvFd s) : InvFd s' :=
+  Proofs.ReactorLife.fd_discipline s s' toks hn h hl hf
 
 end Gnet.Props.C07
+
